@@ -70,7 +70,7 @@ def gen_random(rng, tier, seed):
         seq = []
         for _ in range(rng.randint(3, 40 if tier == 'thorough' else 20)):
             if rng.random() < p_unreg:
-                op = rng.choice([0x0000 + rng.randrange(1, 0x400), 0x3F << 10 | rng.randrange(0x400), rng.randrange(1, 0x10000)])
+                op = rng.choice([0x0000 + rng.randrange(1, 0x400), 0x3F << 10 | rng.randrange(0x400), rng.randrange(1, 0x10000), rng.choice([0x0000, 0xFFFF, 0x0400, 0xFC00])])
                 if op in dict(classes):
                     op = 0xFC77
                 seq.append([op, bytes(rng.getrandbits(8) for _ in range(rng.choice([0, 0, 1, 4, 31, 255])))])
@@ -104,6 +104,7 @@ class Monitor:
         self.world = world
         self.host_out = 0  # commands that left the host minus CC/CS that reached it
         self.cur = None  # [opcode, replies] at the controller boundary
+        self.host_last_op = None
         self.expect: list = []  # pending procedures [opcode, kind, key, situation]
         self.cancel_seen = False
         self.classic_cancel: set = set()
@@ -124,6 +125,7 @@ class Monitor:
             op = int.from_bytes(data[1:3], 'little')
             self.sim.trace.shape('cmd', direction, op)
             if direction == 'tx':
+                self.host_last_op = op
                 self.host_out += 1
                 self.max_out = max(self.max_out, self.host_out)
                 if self.host_out > 1:
@@ -144,7 +146,11 @@ class Monitor:
                     op = int.from_bytes(data[5:7], 'little')
                     status = data[3]
                 if op == 0:
-                    return
+                    # opcode 0x0000 in a reply means "no command" (flow control only) - unless the command that is waiting for
+                    # its reply was itself sent with opcode 0x0000
+                    waiting = self.host_last_op if direction == 'rx' else (self.cur[0] if self.cur is not None and self.cur[1] == 0 else None)
+                    if waiting != 0 or (direction == 'rx' and self.host_out == 0):
+                        return
                 self.sim.trace.shape('rsp', direction, op, code)
                 if direction == 'rx':
                     self.host_out -= 1
